@@ -38,14 +38,15 @@ var Prop = &engine.Prop{
 		"(each step: ok = one Exec and nil | returns an error | panic(string) | panic(error)) x begin{ok,fail} x commit{ok,fail} x rollback{ok,fail}; " +
 		"combineN = the same lists regrouped into consecutive Combine(...) groups in all 2^(N-1) ways x {single steps passed raw | single steps wrapped in Combine and an empty Combine() put in front} x the 8 fault plans. " +
 		"quick: N = 0..4 (len) and 1..4 (combine); thorough: N = 0..6 and 1..5. The seed only selects which combinations are written into the trace. " +
-		"kinds mixed / sequence are seed-sampled extras outside the enumerated space (up to 10 leaves, nested Combine, refused Exec statements, other panic values, several transactions on one *gorm.DB). " +
+		"kinds mixed / sequence / handles are seed-sampled extras outside the enumerated space (up to 10 leaves, nested Combine, refused Exec statements, other panic values, several transactions on one *gorm.DB; Transact on transactional / context-carrying handles and transactions finished behind Transact's back). " +
 		"evaluations = Transact calls judged; a combination is non-trivial when at least one injected fault actually fired (begin/commit/rollback/Exec refused, or a failing step ran); " +
 		"distinct = distinct (program text, fault plan) pairs among the non-trivial ones",
 	Assumptions: []string{
 		"the event log of the in-process database/sql driver (fakesql.go, ~200 lines) is what a database server would have seen; database/sql and gorm v1.25.1 with the MySQL dialector (Conn:, SkipInitializeWithVersion) run unmodified between Transact and that driver",
 		"\"finished exactly once\" is judged at the server: Commit/Rollback attempts that database/sql itself answers with ErrTxDone never reach the driver and are not counted",
 		"a refused commit ends the transaction (the fake server forgets it), as MySQL does after a failed COMMIT on a lost connection",
-		"panic(nil) and runtime.Goexit inside a step are not generated (panic(nil) depends on the main module's GODEBUG default); nil step functions, a db that already carries an error and nested transactions are misuse and not generated",
+		"panic(nil) and runtime.Goexit inside a step are not generated (panic(nil) depends on the main module's GODEBUG default); nil step functions and a db that already carries an error are misuse and not generated",
+		"kind handles (Transact on a handle that is already a transaction, on a handle whose context is or gets cancelled, steps that finish the transaction themselves) is outside the stated fault space: only 'nil result => the server accepted a commit during the call', 'no accepted begin => no step ran' and 'no panic escapes' are judged there",
 		"begin/commit failure: the statement only promises a non-nil result; whether the result wraps the driver's error is counted (begin_error_identity, commit_error_identity), not judged",
 	},
 	ShardsQuick: 4, ShardsThorough: 16,
@@ -68,6 +69,7 @@ var Prop = &engine.Prop{
 		{Name: "combine5", Quick: 0, Thorough: 1, Fn: func(k *engine.Case) { enumCase(k, 5, true) }},
 		{Name: "mixed", Quick: 400, Thorough: 200000, Fn: mixedCase},
 		{Name: "sequence", Quick: 200, Thorough: 100000, Fn: sequenceCase},
+		{Name: "handles", Quick: 120, Thorough: 20000, Fn: handlesCase},
 	},
 	// All floors are far below what the (deterministic) enumeration produces.
 	Floors: map[string]int64{
